@@ -62,6 +62,14 @@ Definition assign (cx : ctx) (s : sstate) (x : name) (v : N) : sstate :=
   if name_eqb x micros_name then mkS (env_set (s_env s) x v) (wrap64 (cx_clock cx + W64 - v))
   else mkS (env_set (s_env s) x v) (s_tz s).
 
+(* the variable a bind expression stores into: its target, or its target's when that is a bind itself *)
+Fixpoint bind_target (e : expr) : option name :=
+  match e with
+  | Sexp OBind (Atom (PName x)) _ => Some x
+  | Sexp OBind t _ => bind_target t
+  | _ => None
+  end.
+
 Fixpoint eval (cx : ctx) (s : sstate) (e : expr) : res :=
   match e with
   | Atom (PBool b) => Val s (if b then 1 else 0)
@@ -102,6 +110,20 @@ Fixpoint eval (cx : ctx) (s : sstate) (e : expr) : res :=
     match eval cx s v with
     | Fault z s1 => Fault z s1
     | Val s1 vv => let s2 := assign cx s1 x vv in Val s2 vv
+    end
+  (* a bind whose target is itself a bind: operands left to right -- the inner bind first (it denotes
+     its variable), then the value, then the store into that variable *)
+  | Sexp OBind ((Sexp OBind _ _) as t) v =>
+    match eval cx s t with
+    | Fault z s1 => Fault z s1
+    | Val s1 _ =>
+      match eval cx s1 v with
+      | Fault z s2 => Fault z s2
+      | Val s2 vv => match bind_target t with
+                     | Some x => Val (assign cx s2 x vv) vv
+                     | None => Val s2 vv
+                     end
+      end
     end
   | Sexp o l r =>
     match eval cx s l with
